@@ -258,6 +258,12 @@ def _run(chk):
                 # a complete tp.link call that raised SubnetOversizeException: must do so in every history
                 chk.tally('whole job raised oversize')
                 if solo[j] != [None] or again[j] != [None]:
+                    # equal-cost ties are broken by Python set order (object addresses): with memory the remembered set, hence
+                    # later subnet sizes, can differ between identical calls.  Only flag when the job alone never raises.
+                    more = [run_schedule(jobs, [j])[j] for _ in range(6)]
+                    if any(m == [None] for m in more):
+                        chk.tally('whole job raises in some identical solo runs (tie-dependent subnet size)')
+                        continue
                     chk.violation('whole job: raise depends on other jobs', 'tp.link raised SubnetOversizeException only in some histories (schedule %s)' % sched,
                                   dict(kind='schedule', job=j, case=jsonable_jobs(jobs, sched, inter), solo=solo[j]))
                 continue
